@@ -6,6 +6,7 @@ use std::collections::BTreeMap;
 use std::sync::OnceLock;
 
 pub mod asm;
+pub mod expr;
 pub mod writer;
 
 pub const FIXTURE_DIR: &str = "/repo/fixtures/self";
